@@ -397,3 +397,20 @@ def discharge(fn, b, kind, op, ops):
     if kind == 'Overflow' and bookkeeping_discharged(fn, ops):
         return 'bookkeeping'
     return None
+
+
+def const_int(fn, o, depth=0):
+    """integer value of an operand that is a literal or a single-assignment copy of one, else None"""
+    if o[0] == 'k':
+        m = _CONST_INT.match(o[2].strip())
+        if m:
+            try:
+                return int(m.group(1).replace('_', ''))
+            except ValueError:
+                return None
+        return None
+    if o[0] in ('c', 'm') and not o[1][1] and depth < 4:
+        d = _single_def(fn, o[1][0])
+        if d and d[1] == 'A' and d[2][0] == 'use':
+            return const_int(fn, d[2][1], depth + 1)
+    return None
